@@ -43,6 +43,13 @@ func exec(op string) (res string) {
 			ans = normNilBytes(ans)
 		}
 		return ans
+	case "held":
+		if len(w) < 3 {
+			return "bad-op"
+		}
+		return execHeld(w[1], w[2:])
+	case "conn":
+		return execConn(w[1:])
 	}
 	return "bad-op"
 }
@@ -273,6 +280,22 @@ func main() {
 	// fixed regression inputs: the recorded deviations and their clean neighbours
 	for _, op := range fixedOps {
 		emit(op, "fixed/"+strings.Fields(op)[0])
+	}
+	// OWNERSHIP of Marshal results and decoded values (held.go), and bind values through real connections (conn.go)
+	for _, op := range fixedHeldOps {
+		emit(op, "fixed/"+strings.Fields(op)[0])
+	}
+	nh, nc := 500, 60
+	if tier == "thorough" {
+		nh, nc = 6000, 600
+	}
+	for i := 0; i < nh; i++ {
+		op, cls := genHeld(g)
+		emit(op, cls)
+	}
+	for i := 0; i < nc; i++ {
+		op, cls := genConn(g)
+		emit(op, cls)
 	}
 	// sizes and counts on both sides of every width boundary of both collection framings (valgen.BoundaryCases):
 	// encode direction against the specification encoder (`spec`), decode direction on bytes written by the
